@@ -15,7 +15,7 @@ import (
 
 func init() {
 	register(&Rule{
-		ID: "LX-T", Props: []string{"C01"}, Min: 3,
+		ID: "LX-T", Props: []string{"C01", "C02"}, Min: 3,
 		Doc: `splitter automata handle every byte explicitly: the record splitters handed to ReadSeqFileChunk (EndOfLastFastaEntry, EndOfLastFastqEntry,
 EndOfLastFlatFileEntry) scan the buffer backwards with a small state machine. Its transition function — the loop body, evaluated from the AST for every reachable state and
 all 256 byte values (finite evaluation of loop-free code, no parser is run) — must assign the state in every partial-match state: a byte that is silently ignored there lets the
